@@ -33,6 +33,9 @@ type rawAlias struct {
 type rawWS struct {
 	Targets []rawTarget
 	Aliases []rawAlias
+	// configuration that must not change the verdict
+	Workers     int      // num_workers (0 = 2)
+	ExcludeTags []string // exclude_tag in grog.toml
 }
 
 func lbl(pkg, name string) string { return "//" + pkg + ":" + name }
@@ -105,7 +108,16 @@ func (w *rawWS) write(root string, reverse bool) error {
 			return err
 		}
 	}
-	return os.WriteFile(filepath.Join(root, "grog.toml"), []byte("num_workers = 2\n"), 0644)
+	workers := w.Workers
+	if workers == 0 {
+		workers = 2
+	}
+	toml := fmt.Sprintf("num_workers = %d\n", workers)
+	if len(w.ExcludeTags) > 0 {
+		b, _ := json.Marshal(w.ExcludeTags)
+		toml += "exclude_tag = " + string(b) + "\n"
+	}
+	return os.WriteFile(filepath.Join(root, "grog.toml"), []byte(toml), 0644)
 }
 
 func isTestName(n string) bool { return strings.HasSuffix(n, "test") }
@@ -410,7 +422,49 @@ func genTestonlyRich(r *rng.R) *rawWS {
 	return w
 }
 
+// genDupKinds: one label defined twice in one package by two BUILD files, once as an alias and
+// once as a target (either file may hold either), loaded by one or several workers.
+func genDupKinds(r *rng.R) *rawWS {
+	w := &rawWS{Workers: rng.Pick(r, []int{1, 1, 4})}
+	files := []string{"BUILD.json", "BUILD.yaml"}
+	if r.Chance(1, 2) {
+		files[0], files[1] = files[1], files[0]
+	}
+	pkg := rng.Pick(r, []string{"p", "p/sub", ""})
+	w.Targets = append(w.Targets, rawTarget{Pkg: pkg, Name: "y", File: files[r.Intn(2)]})
+	w.Aliases = append(w.Aliases, rawAlias{Pkg: pkg, Name: "x", Actual: lbl(pkg, "y"), File: files[0]})
+	w.Targets = append(w.Targets, rawTarget{Pkg: pkg, Name: "x", File: files[1], Deps: []string{lbl(pkg, "y")}})
+	if r.Chance(1, 2) {
+		w.Targets = append(w.Targets, rawTarget{Pkg: pkg, Name: "user", File: files[r.Intn(2)], Deps: []string{lbl(pkg, "x")}})
+	}
+	return w
+}
+
 func genRaw(r *rng.R) *rawWS {
+	w := genRaw0(r)
+	if w.Workers == 0 && r.Chance(1, 4) {
+		w.Workers = rng.Pick(r, []int{1, 4, 8})
+	}
+	if r.Chance(1, 5) {
+		// an exclude_tag configuration, with the tag on some targets: excluded targets are
+		// not selected by patterns, the graph they are part of is validated all the same
+		w.ExcludeTags = []string{"skipme"}
+		if r.Chance(1, 3) {
+			w.ExcludeTags = []string{"other", "skipme"}
+		}
+		for i := range w.Targets {
+			if r.Chance(1, 2) {
+				w.Targets[i].Tags = append(w.Targets[i].Tags, "skipme")
+			}
+		}
+	}
+	return w
+}
+
+func genRaw0(r *rng.R) *rawWS {
+	if r.Chance(1, 14) {
+		return genDupKinds(r)
+	}
 	if r.Chance(1, 3) {
 		return genConflictRich(r)
 	}
@@ -508,7 +562,7 @@ func traceLines(p string) int {
 // RunC11: invalid build graphs are rejected before anything runs; valid ones accepted.
 func RunC11(tier string) int {
 	run := report.New("C11", tier, "exploration",
-		"seeded small workspaces (2-4 nodes: targets, test targets, testonly targets, aliases; packages '', p, p/sub; arbitrary edge sets incl. self-loops, alias cycles, undefined and duplicate labels within and across BUILD.json/BUILD.yaml; outputs drawn from spellings of the same places - x, ./x, a/../x, trailing slashes, nested-package aliasing, file inside dir, nested dirs, ../ escapes for file and dir outputs; escaping inputs), plus two restricted families whose only possible defect is an output conflict resp. a test/testonly dependency reached directly or through alias chains with several legitimate and offending dependants; each written in two target orders, every third also as a lived-in copy (some declared outputs already on disk) entered through a symlinked working directory; "+
+		"seeded small workspaces (2-4 nodes: targets, test targets, testonly targets, aliases; packages '', p, p/sub; arbitrary edge sets incl. self-loops, alias cycles, undefined and duplicate labels within and across BUILD.json/BUILD.yaml; outputs drawn from spellings of the same places - x, ./x, a/../x, trailing slashes, nested-package aliasing, file inside dir, nested dirs, ../ escapes for file and dir outputs; escaping inputs), plus two restricted families whose only possible defect is an output conflict resp. a test/testonly dependency reached directly or through alias chains with several legitimate and offending dependants; one label defined as alias and as target by two BUILD files; num_workers 1..8 and exclude_tag configurations with the tag on some targets; each written in two target orders, every third also as a lived-in copy (some declared outputs already on disk) entered through a symlinked working directory; "+
 			"oracle: reference validator written from the statement; `grog check` must accept exactly the valid graphs in both orders, `grog build` must agree and leave an empty command trace on rejection; non-trivial = graph with at least one dependency edge and one output; distinct = defect-class set + shape")
 	st, err := e1.Prepare(run, false)
 	if err != nil {
@@ -625,7 +679,7 @@ func RunC11(tier string) int {
 						map[string]any{"workspace": w, "reference": reasons, "output": tailS(bres.Stdout+bres.Stderr, 500)})
 					return
 				}
-				if valid && ran == 0 {
+				if valid && ran == 0 && len(w.ExcludeTags) == 0 {
 					run.Violation("build-rejected-valid-graph", fmt.Sprintf("grog build exit=%d ran nothing on a valid graph: %s", bres.Exit, tailS(bres.Stdout+bres.Stderr, 500)),
 						map[string]any{"workspace": w})
 					return
